@@ -133,11 +133,11 @@ theorem tamper_rejected_signedV21 (h : Hyp co env c cfg signer) (hf : c.family =
           else rd32 (e.set i y) ivtImageLengthOffset == (e.set i y).length) = true
         rw [w32]; cases c.zeroTotalLength <;> simp)
     (by have : flagsOf c cfg >>> Spec.MbiRom.shiftTzType &&& Spec.MbiRom.maskTzType = cfg.tz.tag := by
-          rw [← g4]; rfl
+          rw [← g4]; exact rom_tz _
         rw [this]
         cases cfg.tz <;> simp [TzCfg.tag, tzEnabled, tzCustom, tzDisabled, Spec.MbiRom.tzEnabled, Spec.MbiRom.tzCustom,
           Spec.MbiRom.tzDisabled])
-    (by rw [← romV21_imageType F G]; rfl) hty hck
+    (by rw [← romV21_imageType F G]; exact rom_type _) hty hck
   rw [hcheck] at hacc
   have hobl := romNegV21_signed_inv co renv (e.set i y) (appData cfg).length ((appData cfg).length + cfg.cert.length)
     signPub (obs (e.set i y) (appData cfg).length) (manifestLen k cfg) a w40 hcert mlen hacc
